@@ -55,3 +55,11 @@ def lemma_sum_pointwise(a, b):
     if len(a) == 0:
         return
     lemma_sum_pointwise(a[1:], b[1:])
+
+
+def lemma_sum_nonneg(t):
+    # requires forall j: 0 <= t[j];  ensures 0 <= sum(t)
+    if len(t) == 0:
+        return
+    lemma_sum_nonneg(t[1:])
+
